@@ -161,6 +161,10 @@ func tplCorpus() []string {
 		"@(foreach(array(1, 2, 3), (x) => ((f) => f(f))((f) => f(f))))", "@(((f, n) => f(f, n))((f, n) => f(f, n + 1), 0))", "@(((x) => x)((x) => x)(5))", "@(((f) => f)(upper)(\"a\"))",
 		"@(2 ^ 99999999999)", "@(7 ^ 999999999 > 1)", "@(9999999999999999999999999999999999999999999999999999999999999999 ^ 9999999999999999999999999999999999999999999999999999999999999.5)",
 		"@(2 ^ 100000)", "@(2 ^ 100001)", "@(123456789.5 ^ 100000)", "@(repeat(\"x\", 2147483647))", "@(repeat(\"ab\", 50000))", "@(repeat(\"ab\", 50001))", "@(text_length(repeat(\"x\", 999999999)))")
+	// very deep nesting: parentheses, unary minus, operator and lookup chains (the generated parser, the visitor and
+	// Evaluate recurse once per level)
+	lits = append(lits, "@("+strings.Repeat("(", 600000)+"1"+strings.Repeat(")", 600000)+")", "@("+strings.Repeat("-", 1500000)+"1)", "@("+strings.Repeat("1+", 300000)+"1)",
+		"@(a"+strings.Repeat(".a", 300000)+")", "@("+strings.Repeat("upper(", 100000)+"1"+strings.Repeat(")", 100000)+")", "@("+strings.Repeat("(", 20000)+"1"+strings.Repeat(")", 20000)+")")
 	lits = append(lits, "@(format(array(\"a\\nb\", \"\")))", "@(format(array(\"\", \"x\\ny\")))", "@(format(array(array(), \"a\\nb\")))", "@(format(object(\"a\", \"\", \"b\", \"x\\ny\")))")
 	return append(lits, []string{
 		"", "@", "@@", "@(", "@()", "@(\"", "@(\"a\\\")", "@(\"a\\\\\")", "@contact.", "@contact..name", "@(contact.)", "@(1 / 0)", "@(mod(5, 0))",
